@@ -219,35 +219,31 @@ def run(ctx):
         calls = [cs.callee(t) for _, t in cs.calls()]
         for k, d in need.items():
             ctx.check(d in calls, "C18-R4", "check_stop:uses:" + k, "check_stop consults %s()" % k, "check_stop no longer consults %s()" % k, site=cs.where())
-        # stop only under is_accepting: the local holding is_accepting() must be true on the way to stop()
-        pd = None
-        for l, d in enumerate(cs.locals):
-            if d.get("n") == "parser_done":
-                pd = l
-        ia = None
-        for l, d in enumerate(cs.locals):
-            if d.get("n") == "is_accepting":
-                ia = l
+        # stop only under is_accepting: the boolean switched on right before stop() (`parser_done`, found by structure, not
+        # by name) can only be true on paths where is_accepting() returned true
+        acc = L.guard_edges(cs, L.is_call_to(TP + "::is_accepting"), True)
         ok = False
-        if pd is not None and ia is not None:
-            # parser_done = is_accepting && (...): every def of parser_done that can be true is dominated by is_accepting true edge
-            g = L.guard_edges(cs, lambda e: e[0] in ("place", "local") and (e[1] if e[0] == "local" else e[1][0]) == ia or (e[0] == "call" and e[1] == TP + "::is_accepting"), True)
+        for bi, e, targets, otherwise in cs.switch_edges():
+            cur, pol = F.peel_polarity(e)
+            if cur[0] != "local" or cs.local_ty(cur[1]) != "bool":
+                continue
+            tt, ft = F.bool_targets(targets, otherwise)
+            edges = [(bi, t) for t in (tt if pol else ft)]
+            if L.dominated_by_cut(cs, stops, edges):
+                continue  # this switch does not guard stop()
+            pd = cur[1]
             truthy = []
-            for (bi, si, kind, payload) in cs.defs().get(pd, []):
+            for (dbi, si, kind, payload) in cs.defs().get(pd, []):
                 if kind == "assign" and payload["rv"] == "use" and payload["o"].get("iv") == "0":
                     continue
-                truthy.append(bi)
-            still = L.dominated_by_cut(cs, truthy, g) if g else truthy
-            ok = bool(g) and bool(truthy) and not still
-            g2 = L.guard_edges(cs, lambda e: e[0] in ("place", "local") and (e[1] if e[0] == "local" else e[1][0]) == pd, True)
-            still2 = L.dominated_by_cut(cs, stops, g2) if g2 else stops
-            ok = ok and bool(g2) and not still2
+                truthy.append(dbi)
+            ok = bool(acc) and bool(truthy) and not L.dominated_by_cut(cs, truthy, acc)
         ctx.check(ok, "C18-R4", "check_stop:stop-only-if-accepting", "stop() is reached only if parser_done, which requires is_accepting",
                   "check_stop can stop the engine in a non-accepting state", site=cs.where(stops[0]))
     ct = ctx.body(TP + "::consume_token")
     push = [bi for bi, (w, m, r) in P.block_effects(ct).items() if any(x[0] == (TP, "llm_tokens") and x[1].endswith("::push") for x in m)]
     if ctx.floor("C18-R4", "EOS push in consume_token", len(push), 1):
-        g = L.guard_edges(ct, lambda e: e[0] in ("place", "local", "call") and ("is_accepting" in repr(e) or (e[0] != "call" and ct.local_name(e[1] if e[0] == "local" else e[1][0]) == "accepting")), True)
+        g = L.guard_edges(ct, L.is_call_to(TP + "::is_accepting"), True)
         still = L.dominated_by_cut(ct, push, g) if g else push
         ctx.check(bool(g) and not still, "C18-R4", "consume_token:eos-only-if-accepting", "an unscanned EOS is accepted only under is_accepting()",
                   "consume_token accepts EOS in a non-accepting state", site=ct.where(push[0]))
